@@ -214,7 +214,8 @@ def nip44Open (c : Content) (k : Nat) : Open :=
   | .notBase64 => .err
   | .empty => .err                                             -- VersionNotFound
   | .bytes p =>
-    if p.version ≠ Generated.nip44Version then .err            -- UnknownVersion
+    if p.len < Generated.mdkMinPayloadLen then .err            -- a length guard of mdk's own, if any
+    else if p.version ≠ Generated.nip44Version then .err       -- UnknownVersion
     else if p.len < minPayload then .err                       -- nonce / buffer slice not found
     else if p.macKey ≠ some k then .err                        -- InvalidHmac
     else
@@ -265,9 +266,10 @@ def recordFailure (st : Store) (id : Nat) (k : ErrKind) (gid : Option Nat) (epoc
     | none => old.bind (·.gid)
   { st with recs := ainsert id { state := 3, epoch := ep, gid := g, mid := old.bind (·.mid), reason := some (reasonOf k) } st.recs }
 
-/-- replace the group with this MLS group id -/
-def setGroup (groups : List Group) (g : Group) : List Group :=
-  groups.map (fun x => if x.gid = g.gid then g else x)
+/-- the group `g` of the store with its exporter-secret cache filled (`save_group_exporter_secret` is keyed by the
+    MLS group id and the epoch; nothing else of the store is written) -/
+def touch (groups : List Group) (g : Group) : List Group :=
+  groups.map (fun x => if x = g then g.ensure else x)
 
 /-! ### the pipeline -/
 
@@ -320,10 +322,10 @@ def process (cfg : Cfg) (now : Nat) (st : Store) (e : Ev) : Store × Res :=
   | .noGroup => (recordFailure st e.id .groupNotFound none none, .err .groupNotFound)
   | .notLoadable g => (recordFailure st e.id .groupNotFound (some g.gid) none, .err .groupNotFound)
   | .undecryptable g =>
-    (recordFailure { st with groups := setGroup st.groups g.ensure } e.id .message (some g.gid) none, .err .message)
-  | .panicked g => ({ st with groups := setGroup st.groups g.ensure }, .panic)
+    (recordFailure { st with groups := touch st.groups g } e.id .message (some g.gid) none, .err .message)
+  | .panicked g => ({ st with groups := touch st.groups g }, .panic)
   | .opened g i =>
-    let st1 := { st with groups := setGroup st.groups g.ensure }
+    let st1 := { st with groups := touch st.groups g }
     if i = .mls g.gid then (st1, .handed g.gid)
     else
       -- `process_mls_message` fails on the bytes alone (TLS deserialisation / ProtocolGroupIdMismatch):
